@@ -4,6 +4,7 @@ _SOCK = ["contracts.sock_queue", "contracts.sock_conn"]
 _HB = ["contracts.heartbeat"]
 _FL = ["contracts.float_lemmas"]
 _API = ["contracts.api_zone", "contracts.api_ac", "contracts.api_airtouch"]
+_LIB = ["contracts.lib_contracts"]
 MODULES = {
     "C01": _SOCK + ["contracts.at4_ext_timer", "contracts.at5_ctrl_status"],  # header factories: packet counter wrap (runs > 256 sends)
     "C02": _SOCK + _API + _HB,
@@ -25,3 +26,5 @@ MODULES = {
     "C18": ["contracts.discovery"],
     "C19": _API + ["contracts.discovery"] + _FL,
 }
+for _p in ("C01", "C02", "C04", "C06", "C08", "C09", "C11", "C12", "C13", "C14", "C15", "C16", "C17", "C18", "C19"):
+    MODULES[_p] = MODULES[_p] + _LIB
